@@ -62,7 +62,8 @@ func (a *c18App) EndBlock(req abci.RequestEndBlock) abci.ResponseEndBlock {
 		}
 		r.ValidatorUpdates = append(r.ValidatorUpdates, abci.ValidatorUpdate{PubKey: pk, Power: power})
 	}
-	switch req.Height % 7 {
+	rel := c18Rel(req.Height) // the pattern of updates is relative to the first block
+	switch rel % 7 {
 	case 2:
 		upd(2, 5) // add / re-power validator 2
 	case 4:
@@ -71,7 +72,7 @@ func (a *c18App) EndBlock(req abci.RequestEndBlock) abci.ResponseEndBlock {
 	case 6:
 		upd(3, 0)
 	}
-	if req.Height%5 == 3 {
+	if rel%5 == 3 {
 		pp := types.DefaultConsensusParams() // already the proto type in this version
 		pp.Block.MaxGas = 1000 + req.Height
 		r.ConsensusParamUpdates = &abci.ConsensusParams{Block: &abci.BlockParams{MaxBytes: pp.Block.MaxBytes, MaxGas: pp.Block.MaxGas},
@@ -111,6 +112,13 @@ func c18SignCommit(h int64, bid types.BlockID, vals *types.ValidatorSet, keys []
 	return types.NewCommit(h, 0, bid, sigs)
 }
 
+// c18Init is the chain's initial height (genesis initial_height); part "init" sets it to 1000 before building the chain. Heights in
+// operations and cases stay relative (1 = the first block): c18Abs/c18Rel convert.
+var c18Init int64 = 1
+
+func c18Abs(rel int64) int64 { return rel + c18Init - 1 }
+func c18Rel(abs int64) int64 { return abs - c18Init + 1 }
+
 // c18BuildChain builds n heights with the real executor on a plain MemDB and records everything.
 func c18BuildChain(n int) (sm.State, []*c18Height) {
 	keys := c18Keys()
@@ -118,7 +126,7 @@ func c18BuildChain(n int) (sm.State, []*c18Height) {
 		{Address: keys[0].PubKey().Address(), PubKey: keys[0].PubKey(), Power: 10, Name: "v0"},
 		{Address: keys[1].PubKey().Address(), PubKey: keys[1].PubKey(), Power: 6, Name: "v1"},
 	}
-	gen := &types.GenesisDoc{GenesisTime: c18Genesis, ChainID: c18Chain, InitialHeight: 1, ConsensusParams: types.DefaultConsensusParams(), Validators: gvals}
+	gen := &types.GenesisDoc{GenesisTime: c18Genesis, ChainID: c18Chain, InitialHeight: c18Init, ConsensusParams: types.DefaultConsensusParams(), Validators: gvals}
 	state, err := sm.MakeGenesisState(gen)
 	if err != nil {
 		panic(err)
@@ -133,7 +141,7 @@ func c18BuildChain(n int) (sm.State, []*c18Height) {
 	exec := sm.NewBlockExecutor(ss, log.NewNopLogger(), conn, mmock.Mempool{}, sm.EmptyEvidencePool{})
 	var out []*c18Height
 	lastCommit := types.NewCommit(0, 0, types.BlockID{}, nil)
-	for h := int64(1); h <= int64(n); h++ {
+	for h := c18Abs(1); h <= c18Abs(int64(n)); h++ {
 		txs := []types.Tx{types.Tx(fmt.Sprintf("tx-%d", h))}
 		block, parts := state.MakeBlock(h, txs, lastCommit, nil, state.Validators.GetProposer().Address)
 		bid := types.BlockID{Hash: block.Hash(), PartSetHeader: parts.Header()}
@@ -189,13 +197,22 @@ func (e *c18Env) apply(s *c18Stores, op c18Op) error {
 	switch op.Kind {
 	case "save":
 		h := s.bs.Height() + 1
-		if st, err := s.ss.Load(); err == nil && !st.IsEmpty() && st.LastBlockHeight+1 < h {
-			h = st.LastBlockHeight + 1 // the state store lags after a crash: finish that height first
+		if s.bs.Height() == 0 {
+			h = c18Init
 		}
-		if h > int64(len(e.chain)) {
+		if st, err := s.ss.Load(); err == nil && !st.IsEmpty() {
+			next := st.LastBlockHeight + 1
+			if st.LastBlockHeight == 0 {
+				next = c18Init
+			}
+			if next < h {
+				h = next // the state store lags after a crash: finish that height first
+			}
+		}
+		if c18Rel(h) > int64(len(e.chain)) {
 			return nil
 		}
-		rec := e.chain[h-1]
+		rec := e.chain[c18Rel(h)-1]
 		if s.bs.Height() < h {
 			s.bs.SaveBlock(rec.block, rec.parts, rec.commit)
 		}
@@ -204,14 +221,14 @@ func (e *c18Env) apply(s *c18Stores, op c18Op) error {
 		}
 		return s.ss.Save(rec.state)
 	case "prune":
-		base := s.bs.Base()
-		if op.To <= base || op.To > s.bs.Height() {
+		base, to := s.bs.Base(), c18Abs(op.To) // op.To is relative to the first block
+		if to <= base || to > s.bs.Height() {
 			return nil
 		}
-		if _, err := s.bs.PruneBlocks(op.To); err != nil {
+		if _, err := s.bs.PruneBlocks(to); err != nil {
 			return err
 		}
-		return s.ss.PruneStates(base, op.To)
+		return s.ss.PruneStates(base, to)
 	}
 	return fmt.Errorf("bad op")
 }
@@ -254,7 +271,7 @@ func (e *c18Env) audit(s *c18Stores) (key, what string) {
 				k, w = "store:block-missing-in-range", fmt.Sprintf("no block at height %d in [%d,%d]", h, base, height)
 				return nil
 			}
-			if !bytes.Equal(block.Hash(), meta.BlockID.Hash) || !bytes.Equal(block.Hash(), e.chain[h-1].block.Hash()) {
+			if !bytes.Equal(block.Hash(), meta.BlockID.Hash) || !bytes.Equal(block.Hash(), e.chain[c18Rel(h)-1].block.Hash()) {
 				k, w = "store:block-does-not-hash-to-its-id", fmt.Sprintf("height %d", h)
 				return nil
 			}
@@ -287,7 +304,7 @@ func (e *c18Env) audit(s *c18Stores) (key, what string) {
 				k, w = "store:commit-does-not-verify-for-its-block", fmt.Sprintf("height %d: %v", h, err)
 				return nil
 			}
-			if !bytes.Equal(vals.Hash(), e.chain[h-1].vals.Hash()) {
+			if !bytes.Equal(vals.Hash(), e.chain[c18Rel(h)-1].vals.Hash()) {
 				k, w = "state-store:wrong-validators-for-height", fmt.Sprintf("height %d", h)
 				return nil
 			}
@@ -351,11 +368,11 @@ func (e *c18Env) run(r *vr.Report, c c18Case) (key, what string) {
 			}
 			if prunedOK {
 				// pruning removes exactly the heights below the retain height
-				if s.bs.Base() != op.To {
-					key, what = "store:prune-did-not-move-base-to-retain-height", fmt.Sprintf("prune(%d): base %d", op.To, s.bs.Base())
+				if s.bs.Base() != c18Abs(op.To) {
+					key, what = "store:prune-did-not-move-base-to-retain-height", fmt.Sprintf("prune(%d): base %d", c18Abs(op.To), s.bs.Base())
 					return
 				}
-				for h := int64(1); h < op.To; h++ {
+				for h := c18Abs(1); h < c18Abs(op.To); h++ {
 					if s.bs.LoadBlockMeta(h) != nil {
 						key, what = "store:pruned-height-still-present", fmt.Sprintf("prune(%d): height %d still has meta", op.To, h)
 						return
@@ -446,8 +463,15 @@ func max64(a, b int64) int64 {
 	return b
 }
 
-func TestVerifC18(t *testing.T) {
-	r := vr.Start("C18", "store", 140*time.Second, 22*time.Minute)
+func TestVerifC18(t *testing.T) { c18Main("store", 1) }
+
+// TestVerifC18Init: the same histories on a chain whose genesis sets initial_height = 1000 (shorter chain: the dimension is the
+// genesis boundary, not the history length).
+func TestVerifC18Init(t *testing.T) { c18Main("init", 1000) }
+
+func c18Main(part string, initial int64) {
+	c18Init = initial
+	r := vr.Start("C18", part, 140*time.Second, 22*time.Minute)
 	defer r.Finish()
 	r.Rule = "histories = all sequences of save-next-height / prune(retain) over a valid chain (validator and parameter changes); for each history every journal entry " +
 		"(database write or batch) is a crash point, under the process-crash and the machine-crash database model; after reopening, the full audit runs, then one more operation " +
@@ -455,6 +479,10 @@ func TestVerifC18(t *testing.T) {
 	r.Assume("the database is MemDB behind a journal: goleveldb's own recovery is not modelled; batches are atomic (torn batches are explored as diagnostics only)")
 	var rc c18Case
 	n := vr.Pick(7, 9)
+	if initial != 1 {
+		n = vr.Pick(5, 7)
+		r.Assume("heights in cases are relative to the first block; the chain starts at height 1000")
+	}
 	env := &c18Env{}
 	if rep, skip := r.ReplayCase(&rc); skip {
 		return
